@@ -544,3 +544,12 @@ Proof.
   intros a b H. pose proof (atoi_digits_digits a) as Ha. rewrite H in Ha.
   rewrite atoi_digits_digits in Ha. congruence.
 Qed.
+
+Lemma atoi_digits_z : forall z, atoi (digits_z z) = Some z.
+Proof.
+  intros z. destruct z as [|p|p]; unfold digits_z.
+  - apply atoi_digits_nat.
+  - apply (atoi_digits_nat (Npos p)).
+  - unfold atoi. cbn [N.eqb Pos.eqb]. destruct (digits_head (Npos p)) as (c & r & E & _ & _).
+    rewrite E. cbn [is_nil]. rewrite <- E. rewrite atoi_digits_digits. reflexivity.
+Qed.
